@@ -1,10 +1,15 @@
 #!/bin/sh
 # Runs the compile-fail witnesses against $VERIF_REPO/core (default /repo/core). `run.sh warm` only builds dependencies.
+# The generated crate lives in a per-repository work directory; runs are serialised with a lock (shared target directory).
 set -e
 HERE="$(cd "$(dirname "$0")" && pwd)"
 REPO="${VERIF_REPO:-/repo}"
-WORK="$HERE/../.cache/witness"
+CACHE="${VERIF_CACHE:-$HERE/../.cache}"
+TAG="$(printf '%s' "$REPO" | cksum | cut -d' ' -f1)"
+WORK="$CACHE/witness/$TAG"
 mkdir -p "$WORK/src"
+exec 9>"$CACHE/witness.lock"
+flock 9
 cp "$HERE/src/lib.rs" "$WORK/src/lib.rs"
 cat > "$WORK/Cargo.toml" <<TOML
 [package]
@@ -19,9 +24,13 @@ llfree = { path = "$REPO/core" }
 TOML
 cp "$REPO/Cargo.lock" "$WORK/Cargo.lock" 2>/dev/null || true
 cd "$WORK"
-export CARGO_NET_OFFLINE=true CARGO_TARGET_DIR="$HERE/../.cache/witness-target"
+export CARGO_NET_OFFLINE=true CARGO_TARGET_DIR="$CACHE/witness-target"
 if [ "$1" = "warm" ]; then
   cargo +nightly build --offline 2>&1 | tail -2
   exit 0
 fi
+set +e
 cargo +nightly test --doc --offline 2>&1
+rc=$?
+case "$REPO" in /repo) ;; *) cd /; rm -rf "$WORK" ;; esac
+exit $rc
